@@ -209,6 +209,25 @@ CHECKS["C17"] = ("model_checking",
     "Trusted: TLC and the transcription of RFC 8259. Non-finite floats must be representable JSON (string or null).",
     "4 C17")
 
+CHECKS["C19"] = ("model_checking",
+    "TLA+ spec LogFiles.tla: the writer loop and PrefixFileSet as step operators, model-checked by TLC as a machine "
+    "(MC_LogFiles: one file-system operation per step, clock, restarts, files of earlier runs) incl. agreement of the "
+    "small steps with the big-step operators; real LogFileWriter threads and the real PrefixFileSet recorded and every "
+    "directory snapshot validated by TLC against those operators (trace validation with a set of possible states)",
+    "MC_LogFiles checks TotalBound (all files with the prefix, earlier runs included, at most keep + one event in every "
+    "state), PerFileBound, Contiguous (what survives is a gap-free, duplicate-free most-recent suffix), Bookkeeping, "
+    "KnownSorted, KeepsRunning, AgeBound, OldestFirst, SuffixOnly and BigStepAgrees for keep = 1x, 2x (quick) and 3.5x, "
+    "10x (thorough) the file size, with and without keep-age / write-age, up to 2 restarts and 2 foreign files; five "
+    "further configurations keep the counterexamples of the pre-repair design and of the tied-mtime environment. The "
+    "code is bound by (i) fileset-ops: random New/Push/DeleteOldest/DeleteOlderThan/TrimTo sequences on real files "
+    "with synthetic mtimes, directory compared after every call; (ii) logwriter-run: real writer threads over the "
+    "property's configuration grid, sequence-numbered events of 100 B..60 KiB, files left by earlier runs, graceful "
+    "restarts, rotation by age; after every batch the directory (per file: length, line count, first/last sequence "
+    "number, whole lines, consecutive numbers) must be exactly the one LoopW predicts and satisfy every clause.",
+    "Trusted: TLC; the lexical file projection; 'the batch's last line is on disk' as the stability point. Assumed: "
+    "distinct mtimes consistent with log order for files of earlier runs (enforced by the harness; the tied case is "
+    "documented by MC_LogFiles_ties); graceful restarts only; file age counted from closing time.", "4 C19")
+
 NOT_APPLICABLE = {}
 
 
